@@ -79,10 +79,6 @@ def write_cfg(ctx, name, bugs, known, invariants, persist, keephist, maxops, emu
     return mod, cfg
 
 
-def cleanup_mods():
-    pass
-
-
 _HIST = re.compile(r'hist = "((?:[^"\\]|\\.)*)"')
 
 
@@ -338,6 +334,9 @@ def detect(ctx, bd, abi, pid, persist):
             scs.append(s)
         info.append({"defect": d, "invariant": r["violated"], "steps": [x.get("op") + ":" + str(x.get("path", "")) for x in sc["steps"]],
                      "states": r["distinct"]})
+    if not scs:
+        ctx.extra["defect_litmus"] = []
+        return [], []
     rows, viols, drifts, trf = execute(ctx, bd, abi, scs, "litmus")
     for d, inf in zip(mine, info):
         rx = DEFECTS[d][1]
@@ -435,6 +434,8 @@ def coverage(rows):
 
 
 def gate(ctx, cov, need):
+    if ctx.violations:          # a failing run is reported as such; the gate guards the meaning of a passing one
+        return
     missing = [k for k in need if not cov.get(k)]
     if missing:
         raise C.ToolError("coverage gate: the validated traces never exercised %s" % missing)
@@ -494,7 +495,9 @@ def common_run(ctx, pid, persist):
         ctx.extra["model_defects_in_force"] = present
         extra_sc = []
         if r["violated"]:
-            C.log("%s: I => A fails outside the known findings: %s" % (pid, r["violated"]))
+            C.log("%s: I => A fails outside the known findings: %s (the behaviour is replayed on the code as scenario mc-counterexample: "
+                  "a VIOLATION below if the code has it, else MODEL-DRIFT: VfsImpl does something the code does not)" % (pid, r["violated"]))
+            ctx.drift.append({"what": "TLC: I => A violated outside the known findings", "invariants": r["violated"]})
             if cx:
                 extra_sc.append(concretise(cx, "mc-counterexample", "tlc-counterexample:" + ",".join(r["violated"]), ctx.seed))
         return bd, abi, present, r, extra_sc, lit_rows
@@ -553,7 +556,7 @@ def run_c07(ctx):
                             "requests of operations the Vfs does not implement (ioctl, lseek, locks, bmap, poll, copy_file_range) are not driven",
                             "set_remove_pseudo_root() is not exercised"]
     finally:
-        cleanup_mods()
+        pass
 
 
 def run_c14(ctx):
@@ -596,7 +599,7 @@ def run_c14(ctx):
         ctx.assumptions += ["mappings satisfy internal+range <= 2^32 and external+range <= 2^32 (otherwise the library's arithmetic overflows)",
                             "a per-mount mapping with range 0 is not generated", "owner ids of pseudo directories are not constrained"]
     finally:
-        cleanup_mods()
+        pass
 
 
 def run_c19(ctx):
@@ -684,7 +687,7 @@ def run_c19(ctx):
         ctx.assumptions += ["the restored instance is Vfs::new(VfsOptions::default()) as in the documented example; backends are re-attached at the indices mount() returned",
                             "version-1 images exist only for states without per-mount mappings (a version-1 writer had none)"]
     finally:
-        cleanup_mods()
+        pass
 
 
 PROPS = {"C07": run_c07, "C14": run_c14, "C19": run_c19}
